@@ -454,8 +454,24 @@ func (g *TxGen) renewNode(n *SimNode, extra int) *GenTx {
 	}
 	// runtime support: some nodes add the runtime's second deployment version when it is about to become active.
 	oldRts, newRts := n.Runtimes, n.Runtimes
+	joinsIdle := false
 	if at := g.h.Sc.P.RT.SecondDeploymentAt; at != 0 && len(n.Runtimes) == 1 && n.Runtimes[0].Version == rtVersion1 && ep+2 >= at && g.rng.IntN(3) == 0 {
 		newRts = append(append([]*node.Runtime(nil), n.Runtimes...), &node.Runtime{ID: n.Runtimes[0].ID, Version: rtVersion2})
+	}
+	// Second runtime: in every other scenario with an idle owner, compute nodes of the scenario's runtime
+	// sooner or later also sign up for the idle owner's runtime (which resumes it): a node that serves two
+	// runtimes, with the stake claim of two (the renewal of an ACTIVE node adds a runtime).
+	if io := g.h.Sc.IdleOwner; io != nil && g.h.Sc.Seed%4 == 0 && n.IsCompute() && !n.IsKeyManager() && len(n.Runtimes) > 0 && g.rng.IntN(4) == 0 {
+		has := false
+		for _, r := range newRts {
+			if r.ID == IdleOwnerRuntimeID {
+				has = true
+			}
+		}
+		if !has {
+			newRts = append(append([]*node.Runtime(nil), newRts...), &node.Runtime{ID: IdleOwnerRuntimeID, Version: rtVersion1})
+			joinsIdle = true
+		}
 	}
 	// key manager support: a key manager node registers with the init response for the current status.
 	if n.IsKeyManager() && g.h.Sc.KM != nil {
@@ -467,7 +483,13 @@ func (g *TxGen) renewNode(n *SimNode, extra int) *GenTx {
 	tx := registry.NewRegisterNodeTx(g.nonce(n.Keys.ID), g.fee(g.nodeGas(n)), sn)
 	n.Runtimes = oldRts
 	gt := g.finish(n.Keys.ID, tx, n.Name)
-	gt.OnSuccess = func() { n.Desc = nd; n.Runtimes = newRts }
+	gt.OnSuccess = func() {
+		n.Desc = nd
+		n.Runtimes = newRts
+		if joinsIdle {
+			g.Notes["node-joined-second-runtime"]++
+		}
+	}
 	return gt
 }
 
